@@ -358,6 +358,9 @@ type fnFunc struct {
 	recvType      string          // the struct whose methods can be called on the receiver (methods, literals, constructors)
 	ctor          *ctorInfo       // a constructor: q := &T{...} ... return q
 	retRecv       bool            // the Go result is the receiver itself: not a result of the translation
+	nilParams     bool            // a function-typed parameter is compared with nil: calls from translated functions are not supported
+	localObj      *localObj       // q := Ctor(args) in a function without receiver: q plays the receiver, its fields are locals
+	remakes       map[string]bool // fields with a tracked capacity that are assigned a new array (make), here or in a callee
 	namedRecv     bool            // a method of a named map type (type Set[T] map[T]struct{}): the receiver is the first parameter
 	retFresh      bool            // every map result is a new map (make, maps.Clone, such a call, or a local only assigned those)
 	fatFields     map[string]bool // slice fields with a tracked capacity (companion argument <field>_spare)
@@ -407,6 +410,8 @@ type fnGen struct {
 	foreignStructs map[*ast.TypeSpec]string // struct types of other packages used here -> their package
 	coqNames       map[*ast.TypeSpec]string // struct types declared inside a function: <function>_<name>
 	basicNamed     map[string]ast.Expr      // type EditOp byte: the underlying type
+	inlinedLits    map[*ast.FuncDecl]bool   // functions whose local function literals were substituted into the calls (inlineFuncVars)
+	capFields      map[string]bool          // "Type.field": spec cap:... -- the capacity of the slice field is tracked wherever it is assigned as a whole
 	sx             *fnGenX                  // fn_stdobj.go: methods that share their name with a function, global tables
 }
 
@@ -466,6 +471,10 @@ type fnCtx struct {
 	structBusy   map[string]*fnType
 	viewBase     map[string]*fnVar
 	ptrFields    map[*ast.Object]map[string]*fnVar // read-only pointer parameters: field -> its argument
+	nilFlags     map[*ast.Object]*fnVar            // function-typed parameters compared with nil: their flag <name>_nil
+	logFields    map[string]bool                   // receiver fields that are callbacks called for effect only (their calls are the log)
+	handed       map[*fnVar]string                 // slice parameters handed to the constructor of the local object: the field that holds their array
+	retPos       token.Pos                         // where the return being translated stands
 	sx           *fnCtxX                           // fn_stdobj.go: local constants, object variables, pooled objects
 }
 
@@ -783,6 +792,16 @@ func fnGenerate(f *ast.File, specs []string) (string, []string) {
 			}
 			continue
 		}
+		if strings.HasPrefix(sp, "cap:") {
+			// cap:Queue.data -- the capacity of the slice field is tracked in every function that assigns it as a whole
+			if g.capFields == nil {
+				g.capFields = map[string]bool{}
+			}
+			for _, k := range strings.Split(strings.TrimPrefix(sp, "cap:"), ",") {
+				g.capFields[k] = true
+			}
+			continue
+		}
 		if strings.HasPrefix(sp, "writes:") {
 			// writes:Type.field:f1,f2 -- the methods of the object field may write these fields of the receiver
 			parts := strings.Split(sp, ":")
@@ -803,13 +822,16 @@ func fnGenerate(f *ast.File, specs []string) (string, []string) {
 		if fn.decl != nil && fn.recvVar == "" {
 			fn.recvVar, fn.recvType, _ = recvInfo(fn.decl)
 		}
+		g.inlineFuncVars(fn.decl)
 		if ci := g.constructorOf(fn.decl); ci != nil {
 			fn.ctor, fn.recvVar, fn.recvObj, fn.recvType = ci, ci.v, ci.obj, ci.tname
+		} else if lo := g.localObjectOf(fn.decl); lo != nil {
+			fn.localObj, fn.recvVar, fn.recvObj, fn.recvType = lo, lo.v, lo.obj, lo.tname
 		}
 		if pi := g.pooledRecvOf(fn.decl); pi != nil {
 			fn.pooled, fn.recvVar, fn.recvObj, fn.recvType = pi, pi.v, pi.obj, pi.tname
 		}
-		fn.fatFields, fn.reshapes = map[string]bool{}, map[string]bool{}
+		fn.fatFields, fn.reshapes, fn.remakes = map[string]bool{}, map[string]bool{}, map[string]bool{}
 		if fn.decl != nil && g.named[fn.recvType] != nil {
 			fn.namedRecv = true
 		}
